@@ -812,3 +812,90 @@ Section NmsFacts.
       exfalso. apply (higher_asym a c Hh). eapply precedes_sorted; eassumption.
   Qed.
 End NmsFacts.
+
+(* ------------------------------------------------------------------------------------------------ *)
+(* The instance built from the decisions TRANSLATED from src/utils/nms.rs (gen/ScalarNms.v): the abstract theorems
+   read with the translated score filter, rank and coverage comparison.  These proofs go through the specification
+   lemmas of Proofs/NmsScalarProofs.v, which are re-proved against the current source text on every run: a flipped
+   comparison or a division by the other box's area in nms.rs breaks a Qed there, hence this file. *)
+
+From Similari Require Import Base.Num Base.QExtra Proofs.NmsScalarProofs.
+From SimilariGen Require Import Scalar ScalarBox ScalarNms.
+
+(* fraction of the area of lo covered by hi: intersection(hi, lo) / area(lo), exact *)
+Definition cov_ratio (tab : inter_tab) (hi lo : det) : Q :=
+  inter_of tab (d_id hi) (d_id lo) / ubox_area Qops (d_box lo).
+
+Definition score_or_max (d : det) : Q := match d_score d with Some s => s | None => F32_MAX end.
+Definition threshold_or_min (st : option Q) : Q := match st with Some t => t | None => - F32_MAX end.
+
+Lemma det_covers_true : forall tab thr hi lo, det_covers tab thr hi lo = true <-> thr < cov_ratio tab hi lo.
+Proof.
+  intros. unfold det_covers, cov_ratio. rewrite nms_covers_spec. rewrite nms_metric_spec. reflexivity.
+Qed.
+
+Lemma det_covers_false : forall tab thr hi lo, det_covers tab thr hi lo = false <-> ~ thr < cov_ratio tab hi lo.
+Proof.
+  intros. rewrite <- det_covers_true. destruct (det_covers tab thr hi lo); split; intro H.
+  - discriminate.
+  - exfalso. apply H. reflexivity.
+  - intro; discriminate.
+  - reflexivity.
+Qed.
+
+Lemma det_passes_spec : forall st d,
+    det_passes st d = true <->
+    threshold_or_min st < score_or_max d /\ 0 < Universal2DBox_height Qops (d_box d) /\ 0 < Universal2DBox_aspect Qops (d_box d).
+Proof.
+  intros. unfold det_passes, threshold_or_min, score_or_max. rewrite nms_score_filter_spec.
+  rewrite nms_score_threshold_default_spec. reflexivity.
+Qed.
+
+Lemma det_rank_spec : forall d,
+    det_rank d = match d_score d with Some s => s | None => Universal2DBox_height Qops (d_box d) end.
+Proof. intros. unfold det_rank. apply nms_rank_spec. Qed.
+
+Lemma ForallOrdPairs_impl : forall {X : Type} (P P' : X -> X -> Prop) (s : list X),
+    (forall a b, P a b -> P' a b) -> ForallOrdPairs P s -> ForallOrdPairs P' s.
+Proof.
+  intros X P P' s Himp H. induction H as [|x s Hx Hs IH]; constructor; [|exact IH].
+  eapply Forall_impl; [|exact Hx]. intros b Hb. apply Himp. exact Hb.
+Qed.
+
+Lemma nms_translated_subset_lemma : forall st thr tab l d,
+    In d (nms_translated st thr tab l) ->
+    In d l /\ threshold_or_min st < score_or_max d
+    /\ 0 < Universal2DBox_height Qops (d_box d) /\ 0 < Universal2DBox_aspect Qops (d_box d).
+Proof.
+  intros st thr tab l d H. unfold nms_translated in H. apply nms_in_passing in H. destruct H as [H1 H2].
+  split; [exact H1|]. apply det_passes_spec. exact H2.
+Qed.
+
+Lemma nms_translated_sorted_lemma : forall st thr tab l,
+    StronglySorted (fun a b => det_rank b <= det_rank a) (nms_translated st thr tab l).
+Proof. intros. unfold nms_translated. apply nms_sorted_desc. Qed.
+
+Lemma nms_translated_independent_lemma : forall st thr tab l,
+    ForallOrdPairs (fun hi lo => ~ thr < cov_ratio tab hi lo) (nms_translated st thr tab l).
+Proof.
+  intros. unfold nms_translated.
+  eapply ForallOrdPairs_impl; [|apply nms_independent_lemma].
+  intros a b H. apply det_covers_false. exact H.
+Qed.
+
+Lemma nms_translated_dropped_lemma : forall st thr tab l d,
+    In d l -> threshold_or_min st < score_or_max d ->
+    0 < Universal2DBox_height Qops (d_box d) -> 0 < Universal2DBox_aspect Qops (d_box d) ->
+    In d (nms_translated st thr tab l)
+    \/ exists a, In a (nms_translated st thr tab l) /\ det_rank d <= det_rank a /\ thr < cov_ratio tab a d.
+Proof.
+  intros st thr tab l d Hd H1 H2 H3. unfold nms_translated.
+  assert (Hp : det_passes st d = true) by (apply det_passes_spec; repeat split; assumption).
+  destruct (nms_kept_or_covered_lemma det det_rank (det_passes st) (det_covers tab thr) l d Hd Hp) as [H|[a [Ha [Hr Hc]]]].
+  - left. exact H.
+  - right. exists a. split; [exact Ha|]. split; [exact Hr|]. apply det_covers_true. exact Hc.
+Qed.
+
+Lemma nms_translated_idempotent_lemma : forall st thr tab l,
+    nms_translated st thr tab (nms_translated st thr tab l) = nms_translated st thr tab l.
+Proof. intros. unfold nms_translated. apply nms_idempotent_lemma. Qed.
